@@ -92,7 +92,7 @@ fn strip_chain(chain: Chain, options: &Options) -> Chain {
             let body = &expression.branches[0].condition.chains[0];
             // A body ending in a tail call may only be spliced when the block is the chain's last
             // term, so the `^` stays final rather than gaining dead code after it.
-            let ends_in_tail_call = body.terms.last().is_some_and(is_tail_call);
+            let ends_in_tail_call = body.terms.last().is_some_and(ends_in_tail_call);
             !(options.keep)(body) && (!ends_in_tail_call || index == last_index)
         };
         if strip {
@@ -267,6 +267,20 @@ fn is_tail_call(term: &Term) -> bool {
             ..
         })
     )
+}
+
+/// Whether a term is a tail call, or a redundant block that was kept (by `options.keep`) and ends in
+/// one: once that block is stripped (the compiler strips them all), its tail call ends the chain.
+fn ends_in_tail_call(term: &Term) -> bool {
+    match term {
+        Term::Block(expression) if is_redundant_block(term) => expression.branches[0]
+            .condition
+            .chains[0]
+            .terms
+            .last()
+            .is_some_and(ends_in_tail_call),
+        term => is_tail_call(term),
+    }
 }
 
 /// Whether `terms` has a tail call anywhere but its last position — already-dead code that, spliced
